@@ -369,6 +369,9 @@ func ZZ_C15_clamp() {
 // the threshold changes it becomes the clamped mean of the interior background.
 func ZZ_C15_detect() {
 	W, H, e := zzParam("W"), zzParam("H"), zzParam("e")
+	if (W-2*e)*(H-2*e) != 1 {
+		panic("zz: ZZ_C15_detect is written for 1-pixel interiors (exact integer mean)")
+	}
 	d := zzDynDetector(W, H, e)
 	zzAssume(d.tempThreshMin == 0 || d.tempThreshMax == 0 || d.tempThreshMin <= d.tempThreshMax)
 	f := cptvframe.NewFrame(zzCam{W, H, 1})
@@ -378,7 +381,7 @@ func ZZ_C15_detect() {
 	f.Status.TimeOn, f.Status.LastFFCTime = time.Duration(on), time.Duration(last)
 	affected := on-last < int64(10*time.Second)
 	th0 := d.tempThresh
-	var bg0 [16]uint16
+	var bg0 [64]uint16
 	for y := 0; y < H; y++ {
 		for x := 0; x < W; x++ {
 			bg0[y*W+x] = d.background.Pix[y][x]
